@@ -58,6 +58,8 @@ def work(case):
         o, lists = SD.apply_op(dec, rec, op)
         out += o
         if lists is None:
+            if op[0] == "remote" and fail is None:
+                fail = SD.remote_raise_failure(dec, k)
             break
         comp, halt, upd = lists
         after = {}
